@@ -295,6 +295,40 @@ is used, else `step_<labels of the sorted used parameters joined by '.'>` -/
 def instName (step : Str) (used : List Str) (c : Combo) : Str :=
   if used.isEmpty then step else step ++ ['_'] ++ c.paramString used
 
+/-- one iteration of `for combo in self.parameters` for a parameterised step (`used` = its used
+parameters, already recorded in `s.used`) -/
+def stageRow (spec : Spec) (ord : List Str → List Str) (st : Step) (used : List Str) (s : SS) (row : Nat) :
+    Except Err SS :=
+  let step := st.name
+  let hubD := sortDedup (hubOf st)
+  let depD := sortDedup (depsOf st)
+  let usedSpaces := refsOf st
+  let rlimit := if st.restart.isEmpty then 0 else spec.rlimit
+  let c := combo spec.params row
+  let comboStr := c.paramString used
+  let nick := if spec.hashWs then lookup spec.md5 comboStr else []
+  let workspace := makeSafePath spec.root [step, if spec.hashWs then nick else comboStr]
+  let iname := instName step used c
+  let s := { s with workspaces := s.workspaces.filter (fun (e : Str × Str) => e.1 != iname) ++ [(iname, workspace)] }
+  if s.combos.any (·.1 == iname) then .ok s       -- `if combo_str in self.step_combos: continue`
+  else
+    let s := { s with combos := setAssoc s.combos step (union (getAssoc s.combos step) [iname]) }
+    let resolve : Str → Except Err Str := fun m =>
+      if hubD.contains m then .ok (makeSafePath spec.root [m])
+      else if (getAssoc s.used m).isEmpty then wsOf s.workspaces m
+      else wsOf s.workspaces (m ++ ['_'] ++ c.paramString (getAssoc s.used m))
+    match substWs resolve usedSpaces (c.apply st.cmd, c.apply st.restart) with
+    | .error e => .error e
+    | .ok (cmd, r) =>
+      let wsTok := "$(WORKSPACE)".toList
+      let inst : Inst := { name := iname, nick := if spec.hashWs then nick else iname,
+                           ws := workspace, cmd := replaceAll cmd wsTok workspace,
+                           restart := replaceAll r wsTok workspace,
+                           params := c.paramValues used, rlimit := rlimit,
+                           extras := st.extras.map fun (kv : Str × Str) => (kv.1, c.apply kv.2) }
+      place ord s inst (depD.isEmpty && hubD.isEmpty)
+        (depD.map fun p => instName p (getAssoc s.used p) c) hubD
+
 /-- one step of the `for step in t_sorted` loop -/
 def stageStep (spec : Spec) (ord : List Str → List Str) (s : SS) (st : Step) : Except Err SS :=
   let step := st.name
@@ -332,31 +366,7 @@ def stageStep (spec : Spec) (ord : List Str → List Str) (s : SS) (st : Step) :
       (List.range (nRows spec.params)).foldl (fun (acc : Except Err SS) row =>
         match acc with
         | .error e => .error e
-        | .ok s =>
-          let c := combo spec.params row
-          let comboStr := c.paramString used
-          let nick := if spec.hashWs then lookup spec.md5 comboStr else []
-          let workspace := makeSafePath spec.root [step, if spec.hashWs then nick else comboStr]
-          let iname := instName step used c
-          let s := { s with workspaces := s.workspaces.filter (fun (e : Str × Str) => e.1 != iname) ++ [(iname, workspace)] }
-          if s.combos.any (·.1 == iname) then .ok s       -- `if combo_str in self.step_combos: continue`
-          else
-            let s := { s with combos := setAssoc s.combos step (union (getAssoc s.combos step) [iname]) }
-            let resolve : Str → Except Err Str := fun m =>
-              if hubD.contains m then .ok (makeSafePath spec.root [m])
-              else if (getAssoc s.used m).isEmpty then wsOf s.workspaces m
-              else wsOf s.workspaces (m ++ ['_'] ++ c.paramString (getAssoc s.used m))
-            match substWs resolve usedSpaces (c.apply st.cmd, c.apply st.restart) with
-            | .error e => .error e
-            | .ok (cmd, r) =>
-              let wsTok := "$(WORKSPACE)".toList
-              let inst : Inst := { name := iname, nick := if spec.hashWs then nick else iname,
-                                   ws := workspace, cmd := replaceAll cmd wsTok workspace,
-                                   restart := replaceAll r wsTok workspace,
-                                   params := c.paramValues used, rlimit := rlimit,
-                                   extras := st.extras.map fun (kv : Str × Str) => (kv.1, c.apply kv.2) }
-              place ord s inst (depD.isEmpty && hubD.isEmpty)
-                (depD.map fun p => instName p (getAssoc s.used p) c) hubD) (.ok s)
+        | .ok s => stageRow spec ord st used s row) (.ok s)
 
 def initSS (root : Str) : SS :=
   { g := { insts := [], adj := [(SOURCE, [])], deps := [] },
